@@ -49,6 +49,19 @@ def is_expected(exc: BaseException) -> bool:
     return bool(getattr(exc, '_sim_expected', False))
 
 
+_ADDR = None
+
+
+def exc_text(exc: BaseException) -> str:
+    """repr of an exception without memory addresses (they would make digests unstable)."""
+    global _ADDR
+    import re
+
+    if _ADDR is None:
+        _ADDR = re.compile(r'0x[0-9a-fA-F]+')
+    return _ADDR.sub('0x?', f'{type(exc).__name__}: {exc}')[:400]
+
+
 def exc_label(exc: BaseException) -> str:
     """A stable label for logs (class names of errors surfaced by JAX are not stable)."""
     if isinstance(exc, (SimFault, SimBaseFault, CallbackFault, asyncio.CancelledError, TimeoutError, Abort)):
@@ -290,8 +303,8 @@ class Run:
             raise
         except BaseException as exc:  # noqa: BLE001
             tls.quiet -= 1
-            self.log(fr, 'error', {'clause': 'N', 'site': 'instance', 'why': repr(exc)}, aid=-1)
-            self.violate(fr, 'N', {'site': 'instance', 'why': repr(exc)})
+            self.log(fr, 'error', {'clause': 'N', 'site': 'instance', 'why': exc_text(exc)}, aid=-1)
+            self.violate(fr, 'N', {'site': 'instance', 'why': exc_text(exc)})
             raise  # unreachable
         tls.quiet -= 1
         return palette.observe(state)
@@ -519,8 +532,8 @@ class Run:
                 # raised by Config(...), __enter__ or __exit__ themselves
                 if not self.aborting:
                     where = 'exit' if entered else 'construct/enter'
-                    self.log(fr, 'error', {'clause': 'N', 'site': where, 'why': repr(exc)})
-                    self.violate(fr, 'N', {'site': where, 'why': repr(exc), 'uid': uid})
+                    self.log(fr, 'error', {'clause': 'N', 'site': where, 'why': exc_text(exc)})
+                    self.violate(fr, 'N', {'site': where, 'why': exc_text(exc), 'uid': uid})
             how = exc_label(exc)
             raise
         finally:
@@ -540,8 +553,8 @@ class Run:
         except Abort:
             raise
         except BaseException as exc:  # noqa: BLE001
-            self.log(fr, 'error', {'clause': 'N', 'site': 'instance', 'why': repr(exc)})
-            self.violate(fr, 'N', {'site': 'instance', 'why': repr(exc)})
+            self.log(fr, 'error', {'clause': 'N', 'site': 'instance', 'why': exc_text(exc)})
+            self.violate(fr, 'N', {'site': 'instance', 'why': exc_text(exc)})
             return
         obs = palette.observe(state)
         self.log(fr, 'read', {'obs': obs, 'why': why})
@@ -591,8 +604,8 @@ class Run:
         except (Abort, HarnessError):
             raise
         except BaseException as exc:  # noqa: BLE001
-            self.log(fr, 'error', {'clause': 'N', 'site': 'create', 'why': repr(exc)})
-            self.violate(fr, 'N', {'site': 'create', 'shape': shape, 'why': repr(exc)})
+            self.log(fr, 'error', {'clause': 'N', 'site': 'create', 'why': exc_text(exc)})
+            self.violate(fr, 'N', {'site': 'create', 'shape': shape, 'why': exc_text(exc)})
             return
         invs = find_inverses(op)
         caps_obs = [palette.observe(inv.config) for inv in invs]
@@ -641,8 +654,8 @@ class Run:
         except (Abort, HarnessError):
             raise
         except BaseException as exc:  # noqa: BLE001
-            self.log(fr, 'error', {'clause': 'N', 'site': 'roundtrip', 'why': repr(exc)})
-            self.violate(fr, 'N', {'site': 'roundtrip:' + kind, 'why': repr(exc)})
+            self.log(fr, 'error', {'clause': 'N', 'site': 'roundtrip', 'why': exc_text(exc)})
+            self.violate(fr, 'N', {'site': 'roundtrip:' + kind, 'why': exc_text(exc)})
             return
         invs = find_inverses(op)
         caps_obs = [palette.observe(inv.config) for inv in invs]
@@ -757,7 +770,7 @@ class Run:
         pred = model.predict_apply(handle.shape, handle.ops, handle.caps, table, handle.exact)
         complaint = model.judge_apply(pred, rname, fired, fault_fired, handle.shape, handle.caps)
         if complaint:
-            self.violate(fr, 'U', {'site': 'apply', 'h': handle.h, 'mode': mode, 'why': complaint, 'raised': repr(raised)[:300]})
+            self.violate(fr, 'U', {'site': 'apply', 'h': handle.h, 'mode': mode, 'why': complaint, 'raised': exc_text(raised) if raised is not None else None})
         if caps_after != handle.caps:
             self.violate(fr, 'U', {'site': 'apply:captured-mutated', 'caps': caps_after, 'expected': handle.caps})
         self.expect(fr, 'U', obs, active, {'what': 'active configuration changed by an apply'})
